@@ -386,3 +386,92 @@ package engine
 //@ func setValue(dst, src) (err)
 //@   assigns group(ast)
 //@   ensures [C03,C08] ill-typed-is-an-error: !tassignable(rtype(src), rtype(dst)) ==> err != nil
+
+// ---- file-level replacement (C03, C05, C09, C11) --------------------------------------------------------
+
+// Every recorded site is processed once, in order, each with the bindings recorded for that site; the
+// generated value is spliced into the slot only if the slot's type admits it; the result is the very
+// file object that was matched (later changes see this change's output).
+//@ func (r FileReplacer) Replace(d, cl) (file, err)
+//@   requires d != nil && r.NodeReplacer != nil
+//@   requires typing: dmap(d)[boxed(global("github.com/uber-go/gopatch/internal/engine.fileMatchKey"))] != nil ==> wfFileMatch(dmap(d)[boxed(global("github.com/uber-go/gopatch/internal/engine.fileMatchKey"))])
+//@   at call engine.Replacer.Replace assert [C03] each-site-with-its-own-bindings: arg1 == m.data && arg3 == m.region.Pos
+//@   at call engine.Replacer.Replace set sitesReplaced = sitesReplaced + 1
+//@   assigns group(ast), sitesReplaced
+//@   ensures [C03] every-recorded-site-is-processed: err == nil ==> sitesReplaced == old(sitesReplaced) + len(fd.Matches)
+//@   ensures [C06,C09] the-matched-file-object-is-returned: err == nil ==> file == fd.File && file != nil
+//@   loop 0
+//@     invariant [C03] sitesReplaced == old(sitesReplaced) + #k
+
+//@ func (r ImportsReplacer) Replace(d, cl, f) (names, err)
+//@   requires d != nil && f != nil
+//@   assigns group(ast)
+
+
+//@ func (c Changelog) Changed(start, end)
+//@   trusted records an interval in a go-intervals set (dependency state, not modelled)
+//@   assigns nothing
+
+//@ func (c Changelog) Unchanged(start, end)
+//@   trusted records an interval in a go-intervals set (dependency state, not modelled)
+//@   assigns nothing
+
+//@ func lookupSliceDotsSkipped(d, dots) (result, region)
+//@   requires d != nil
+//@   assigns nothing
+
+// The rewritten list: section replacements interleaved with the recorded runs. The result is built in
+// fresh memory: neither the captured runs nor any other existing list may be written (C05).
+//@ func (r SliceDotsReplacer) Replace(d, cl, pos) (v, err)
+//@   requires forall s int {r.Sections[s]} :: 0 <= s && s < len(r.Sections) ==> forall j int {r.Sections[s][j]} :: 0 <= j && j < len(r.Sections[s]) ==> r.Sections[s][j] != nil
+//@   requires r.dotAssoc != nil || len(r.Dots) == 0
+//@   loop 0
+//@     invariant skipped.arr == 0 || fresh(skipped.arr)
+//@   loop 1
+//@     invariant [C05] result-list-is-built-in-fresh-memory: items.arr == 0 || fresh(items.arr)
+//@     invariant len(skipped) >= 0
+//@   loop 2
+//@     invariant [C05] result-list-is-built-in-fresh-memory: items.arr == 0 || fresh(items.arr)
+//@   loop 3
+//@     invariant true
+
+// Statement patterns: the container (block, case clause, comm clause) is rebuilt with every field other
+// than its statement list copied from the matched node (labels, case lists, positions are preserved).
+//@ func (r stmtSliceContainerReplacer) Replace(d, cl, pos) (v, err)
+//@   requires r.Stmts != nil
+//@   at call (reflect.Value).Set set fieldsSet = fieldsSet + 1
+//@   assigns group(ast), fieldsSet
+//@   ensures [C05] every-other-field-is-copied-back: err == nil ==> fieldsSet == old(fieldsSet) + len(sd.OtherFields) + 1
+//@   loop 0
+//@     invariant [C05] fieldsSet == old(fieldsSet) + #k
+
+
+// ---- imports after a change (C11) -----------------------------------------------------------------------
+
+// A matched import is deleted only if its package name was re-introduced by the '+' side or is no longer
+// referred to; the import deleted is the matched one (its own recorded name and path).
+//@ func (r ImportsReplacer) Cleanup(d, f, newNames) (err)
+//@   requires d != nil && f != nil
+//@   at call golang.org/x/tools/go/ast/astutil.DeleteNamedImport assert [C11] deletes-only-the-matched-import: arg3 == imp && (dmap(d)[boxed(as("github.com/uber-go/gopatch/internal/engine.importKey", imp))] == nil ==> arg2 == "")
+//@   at call golang.org/x/tools/go/ast/astutil.DeleteNamedImport assert [C11] only-if-replaced-or-unused: replaced || !ret("engine.usesNameAsTopLevel", 0)
+//@   at call engine.usesNameAsTopLevel assert [C11] usage-is-checked-under-this-imports-own-package-name: dmap(d)[boxed(as("github.com/uber-go/gopatch/internal/engine.importKey", imp))] == nil ==> arg1 == pathBase(imp)
+//@   assigns group(ast)
+//@   loop 0
+//@     invariant taken != nil
+//@   loop 1
+//@     invariant taken != nil
+//@   loop 2
+//@     invariant true
+
+//@ func usesNameAsTopLevel(f, name) (used)
+//@   assigns nothing
+
+// The ast.Inspect callback of usesNameAsTopLevel: only a selector whose base is a plain identifier ends
+// the descent; every other node (including a selector with a compound base such as a.b.c or a().b) is
+// searched further, so a reference inside a longer chain is still found.
+//@ func usesNameAsTopLevel$1(n) (res)
+//@   assigns used
+//@   ensures [C11] non-selectors-are-searched-further: n.typ != dyn("*go/ast.SelectorExpr") ==> res
+//@   ensures [C11] compound-selector-bases-are-searched-further: n.typ == dyn("*go/ast.SelectorExpr") && as("*go/ast.SelectorExpr", n.val).X.typ != dyn("*go/ast.Ident") ==> res
+//@   ensures [C11] found-means-named-and-unresolved: used && !old(used) ==> n.typ == dyn("*go/ast.SelectorExpr") && as("*go/ast.SelectorExpr", n.val).X.typ == dyn("*go/ast.Ident") && as("*go/ast.Ident", as("*go/ast.SelectorExpr", n.val).X.val).Name == name && as("*go/ast.Ident", as("*go/ast.SelectorExpr", n.val).X.val).Obj == nil
+//@   ensures [C11] never-unset: old(used) ==> used
